@@ -1364,6 +1364,31 @@ impl<RW: QueueRW<T>, T> Stream for &FutInnerRecv<RW, T> {""")]),
 }
 
 /// This struct acts as a UniInnerRecv""")]),
+    V('fut-spin-zero-trips-means-ready', 'C15', ['P7j'], [E(MQ, """        for _ in 0..self.spins_first {
+            if check(seq, at, wc) {
+                return false;
+            }
+        }
+
+        for _ in 0..self.spins_yield {
+            yield_now();
+            if check(seq, at, wc) {
+                return false;
+            }
+        }
+        true
+    }""", """        let mut pending = false;
+        for i in 0..self.spins_first + self.spins_yield {
+            if i >= self.spins_first {
+                yield_now();
+            }
+            pending = !check(seq, at, wc);
+            if !pending {
+                break;
+            }
+        }
+        pending
+    }""")]),
 ]
 
 # behaviour-preserving patches written by independent sub-agents (tools/eval_refactors.sh, DESIGN 12.9): every check
